@@ -355,7 +355,7 @@ pub fn values_of(case: &Value, recs: &[Vec<u8>]) -> Vec<u64> {
     // the offsets a store of these records would have, shifted by `base`
     let base = case["base"].as_u64().unwrap_or(0);
     let mut v = vec![base];
-    for d in recs { let l = *v.last().unwrap(); v.push(l + d.len() as u64); }
+    for d in recs { let l = *v.last().unwrap(); v.push(l.saturating_add(d.len() as u64)); }
     if case["drop_first"].as_bool().unwrap_or(false) { v.remove(0); }
     v
 }
